@@ -488,7 +488,14 @@ fn foreign_case<B: Backend>(c: &ForeignCase, acc: &mut Acc) -> R {
     // the same token read through the registered-claims payload type when its message is a full
     // claims object of a foreign issuer (all seven claims, unknown members anywhere)
     if c.style % 3 == 0 {
-        let claims_msg = format!("{{\"role\":\"x\",\"iss\":{t},\"sub\":\"s\",\"aud\":\"a\",\"mid\":[1,2],\"exp\":\"2039-01-01T00:00:00Z\",\"nbf\":\"2020-01-01T00:00:00Z\",\"iat\":\"2021-01-01T00:00:00+00:00\",\"jti\":\"id\",\"data\":{n},\"last\":null}}", t = serde_json::to_string(&c.text).unwrap(), n = c.n);
+        // (member names as other serialisers spell them: PHP's json_encode escapes '/' and non-ASCII, and
+        // an escape may stand for any character of a registered name as well)
+        let (iss_name, custom_name) = match c.style % 9 {
+            0 => ("iss", "role"),
+            3 => ("\\u0069ss", "https:\\/\\/example.com\\/roles"),
+            _ => ("is\\u0073", "r\\u00f4le"),
+        };
+        let claims_msg = format!("{{\"{custom_name}\":\"x\",\"{iss_name}\":{t},\"sub\":\"s\",\"aud\":\"a\",\"mid\":[1,2],\"exp\":\"2039-01-01T00:00:00Z\",\"nbf\":\"2020-01-01T00:00:00Z\",\"iat\":\"2021-01-01T00:00:00+00:00\",\"jti\":\"id\",\"data\":{n},\"last\":null}}", t = serde_json::to_string(&c.text).unwrap(), n = c.n);
         let m2 = claims_msg.as_bytes().to_vec();
         let r: Result<paseto_json::RegisteredClaims, String> = if c.public {
             let sk_raw = secret_bytes(ver, &c.key);
